@@ -168,6 +168,55 @@ Proof.
   apply V_here; vm_compute; reflexivity.
 Qed.
 
+(* ------------------------------------------------------------------ tuples and fixed-length arrays
+   corpus/convert/seq_example.json (see Props/C02F.v): a wrong tuple arity (through the "$ref"), a wrong
+   array length and a wrong tuple element type are rejected at every fuel. *)
+Definition D_seq : defs := [([80; 116]%N, (SObj (Some [TArray]) None None None (mkNumv None None None None None) (mkStrv None None None) ItemsTuple [(SObj (Some [TNumber]) None None None (mkNumv None None None None None) (mkStrv None None None) ItemsAbsent (@nil schema) None None None false (@nil (ustring * schema)) (@nil ustring) None None None None None None None None None None); (SObj (Some [TNumber]) None None None (mkNumv None None None None None) (mkStrv None None None) ItemsAbsent (@nil schema) None None None false (@nil (ustring * schema)) (@nil ustring) None None None None None None None None None None)] None (Some 2%N) (Some 2%N) false (@nil (ustring * schema)) (@nil ustring) None None None None None None None None None None)); ([81]%N, (SObj (Some [TObject]) None None None (mkNumv None None None None None) (mkStrv None None None) ItemsAbsent (@nil schema) None None None false [([97; 116]%N, (SObj None None None None (mkNumv None None None None None) (mkStrv None None None) ItemsAbsent (@nil schema) None None None false (@nil (ustring * schema)) (@nil ustring) None None None None None None None (Some [80; 116]%N) None None)); ([114; 103; 98]%N, (SObj (Some [TArray]) None None None (mkNumv None None None None None) (mkStrv None None None) ItemsSingle [(SObj (Some [TInteger]) (Some [117; 105; 110; 116; 56]%N) None None (mkNumv None None None None None) (mkStrv None None None) ItemsAbsent (@nil schema) None None None false (@nil (ustring * schema)) (@nil ustring) None None None None None None None None None None)] None (Some 3%N) (Some 3%N) false (@nil (ustring * schema)) (@nil ustring) None None None None None None None None None None)); ([116; 97; 103; 115]%N, (SObj (Some [TArray]) None None None (mkNumv None None None None None) (mkStrv None None None) ItemsSingle [(SObj (Some [TString]) None None None (mkNumv None None None None None) (mkStrv None None None) ItemsAbsent (@nil schema) None None None false (@nil (ustring * schema)) (@nil ustring) None None None None None None None None None None)] None None None true (@nil (ustring * schema)) (@nil ustring) None None None None None None None None None None))] [[97; 116]%N; [114; 103; 98]%N] None None None None None None None None None None))].
+Definition T_seq : space := (mkSpace [(1%N, (mkEntry (DNewtype [80; 116]%N None 4%N CNone) (@nil ustring))); (2%N, (mkEntry (DStruct [81]%N None [(mkProp [97; 116]%N RNone PRequired 1%N); (mkProp [114; 103; 98]%N RNone PRequired 6%N); (mkProp [116; 97; 103; 115]%N RNone POptional 9%N)] false) (@nil ustring))); (3%N, (mkEntry (DFloat [102; 54; 52]%N) (@nil ustring))); (4%N, (mkEntry (DTuple [3%N; 3%N]) (@nil ustring))); (5%N, (mkEntry (DInteger [117; 56]%N) (@nil ustring))); (6%N, (mkEntry (DArray 5%N 3%N) (@nil ustring))); (7%N, (mkEntry DString (@nil ustring))); (8%N, (mkEntry (DSet 7%N) (@nil ustring))); (9%N, (mkEntry (DOption 8%N) (@nil ustring)))] 10%N (mkSettings None (@nil ustring) false [58; 58; 32; 115; 116; 100; 32; 58; 58; 32; 99; 111; 108; 108; 101; 99; 116; 105; 111; 110; 115; 32; 58; 58; 32; 72; 97; 115; 104; 77; 97; 112]%N) false false false false (@nil ustring)).
+Definition v_seq_ok : json := (JObj [([97; 116]%N, (JArr [(JInt (1)%Z); (JFlt (Qmake (5)%Z 2%positive))])); ([114; 103; 98]%N, (JArr [(JInt (0)%Z); (JInt (128)%Z); (JInt (255)%Z)])); ([116; 97; 103; 115]%N, (JArr [(JStr [97]%N); (JStr [98]%N)]))]).
+Definition v_seq_arity : json := (JObj [([97; 116]%N, (JArr [(JInt (1)%Z)])); ([114; 103; 98]%N, (JArr [(JInt (0)%Z); (JInt (1)%Z); (JInt (2)%Z)]))]).
+Definition v_seq_rgb : json := (JObj [([97; 116]%N, (JArr [(JInt (1)%Z); (JInt (2)%Z)])); ([114; 103; 98]%N, (JArr [(JInt (0)%Z); (JInt (1)%Z)]))]).
+Definition v_seq_elem : json := (JObj [([97; 116]%N, (JArr [(JInt (1)%Z); (JStr [120]%N)])); ([114; 103; 98]%N, (JArr [(JInt (0)%Z); (JInt (1)%Z); (JInt (2)%Z)]))]).
+
+Example C05F_seq_in_frag : in_frag_exact Sanitize.ascii_classes D_seq = true.
+Proof. vm_compute. reflexivity. Qed.
+
+Example C05F_seq_convert : convert_doc Sanitize.ascii_classes D_seq = Some T_seq.
+Proof. vm_compute. reflexivity. Qed.
+
+Definition s_Q : schema := match resolve_ref D_seq [81]%N with Some s => s | None => SBool true end.
+Definition s_Pt : schema := match resolve_ref D_seq [80; 116]%N with Some s => s | None => SBool true end.
+
+Lemma C05F_seq_reject (v : json) : viol nore D_seq s_Q v -> forall f, de nore nore T_seq f 2%N v = None.
+Proof.
+  intros Hv. apply (C05F_fragment_no_bypass Sanitize.ascii_classes nore nore D_seq T_seq C05F_seq_in_frag C05F_seq_convert
+                      [81]%N 2%N s_Q); [vm_compute; right; left; reflexivity|reflexivity|exact Hv].
+Qed.
+
+Example C05F_seq_tuple_arity_rejected : forall f, de nore nore T_seq f 2%N v_seq_arity = None.
+Proof.
+  apply C05F_seq_reject.
+  eapply (V_prop nore D_seq s_Q [97; 116]%N); [reflexivity|left; reflexivity|reflexivity|discriminate|].
+  eapply (V_ref nore D_seq _ [80; 116]%N s_Pt); [reflexivity|reflexivity|discriminate|].
+  apply V_here; vm_compute; reflexivity.
+Qed.
+
+Example C05F_seq_array_length_rejected : forall f, de nore nore T_seq f 2%N v_seq_rgb = None.
+Proof.
+  apply C05F_seq_reject.
+  eapply (V_prop nore D_seq s_Q [114; 103; 98]%N); [reflexivity|right; left; reflexivity|reflexivity|discriminate|].
+  apply V_here; vm_compute; reflexivity.
+Qed.
+
+Example C05F_seq_tuple_element_rejected : forall f, de nore nore T_seq f 2%N v_seq_elem = None.
+Proof.
+  apply C05F_seq_reject.
+  eapply (V_prop nore D_seq s_Q [97; 116]%N); [reflexivity|left; reflexivity|reflexivity|discriminate|].
+  eapply (V_ref nore D_seq _ [80; 116]%N s_Pt); [reflexivity|reflexivity|discriminate|].
+  eapply (V_tuple nore D_seq s_Pt _ _ 1%nat); [reflexivity|reflexivity|reflexivity|reflexivity|discriminate|].
+  apply V_here; vm_compute; reflexivity.
+Qed.
+
 (* ------------------------------------------------------------------ the side condition is necessary
    `{"type":["string","null"],"enum":["x","y"]}` is in the C02 fragment; typify
    generates Option<enum>, which accepts `null`; `null` is not one of the
